@@ -226,8 +226,9 @@ class SV:
                 sg, m = self.guard, key.at
                 if not key.dense():
                     # a mask computed from a compressed vector selects among its positions: same base guard required
-                    _align(self, key)
-                    return SV(self.n, self.at, self.kind, lambda i: z3.And(sg(i), tobool(m(i))), arange=self.arange)
+                    _align(self, key)          # (a mask of a compressed vector on a dense one: lengths differ in NumPy - obligation)
+                    sg_ = sg if sg is not None else (lambda i: TRUE)
+                    return SV(self.n, self.at, self.kind, lambda i: z3.And(sg_(i), tobool(m(i))), arange=self.arange)
                 if sg is None:
                     g = lambda i: tobool(m(i))
                 else:
@@ -651,6 +652,11 @@ class FlatNonzero:
             c.assume(_forall(v, lambda j: z3.Implies(j > i, z3.Not(tobool(v.at(j))))))
         else:
             c.assume(_forall(v, lambda j: z3.Implies(j < i, z3.Not(tobool(v.at(j))))))
+        if not v.dense():
+            # the mask lives on a compressed vector: NumPy's index is the POSITION in that compressed vector, i.e. the number of
+            # selected base positions before i - not the base position (they differ as soon as an earlier element was filtered out)
+            rank = count_pred(i, v.g, lambda j: TRUE)
+            return SI(rank.t)
         return SI(i)
 
     @property
